@@ -760,10 +760,10 @@ def check_explicit(ctx, spec):
 # ---- campaigns -------------------------------------------------------------------------------------------------------------
 def campaigns(ctx):
     return [
-        Campaign('abtest', abtest_spec(), check_abtest, 1300, 20000),
-        Campaign('latest', latest_spec(), check_latest, 400, 4000),
-        Campaign('explicit', explicit_spec, check_explicit, 150, 1000),
-        Campaign('pool', pool_spec(), check_pool, 30, 300),
+        Campaign('abtest', abtest_spec(), check_abtest, 1300, 12000),
+        Campaign('latest', latest_spec(), check_latest, 400, 2500),
+        Campaign('explicit', explicit_spec, check_explicit, 150, 500),
+        Campaign('pool', pool_spec(), check_pool, 30, 150),
     ]
 
 
